@@ -61,6 +61,18 @@ fn main() {
             let l: Vec<usize> = args[2].split(',').filter_map(|x| x.parse().ok()).collect();
             println!("{}", String::from_utf8(spaces::p_program(args[1].parse().unwrap_or(3), &l, 2, false)).unwrap());
         }
+        "dump-space" => {
+            let mut f = |_: u64, c: &[u8]| println!("{}", std::str::from_utf8(c).unwrap());
+            match args[1].as_str() {
+                "l3r" => { spaces::space_l3_reduced(&mut f); }
+                "l2" => { spaces::space_l(0, 2, &mut f); }
+                "sp" => { spaces::space_sp(&mut f); }
+                "q" => { for c in spaces::space_q() { f(0, &c); } }
+                "t" => { for c in spaces::space_t(false) { f(0, &c); } }
+                "p" => { spaces::space_p(false, &mut f); }
+                _ => {}
+            }
+        }
         "show-w" => show_w(args[1].parse().unwrap_or(3), &args[2]),
         "canon-info" => canon_info(&std::fs::read_to_string(&args[1]).unwrap_or_default(), args[2].as_bytes()),
         "find-level-probe" => {
@@ -429,6 +441,9 @@ pub fn count_spaces() {
     for k in 1..=3 {
         let n = spaces::space_s(k, 0, &mut |_, _| {});
         println!("S(1,{k}) = {n}");
+    }
+    for k in 1..=3 {
+        println!("L({k}) = {}", spaces::space_l(0, k, &mut |_, _| {}));
     }
     println!("S2(2,1) = {}", spaces::space_s(2, 1, &mut |_, _| {}));
     println!("W quick = {}, W full = {}", spaces::space_w(false, &mut |_, _| {}), spaces::space_w(true, &mut |_, _| {}));
